@@ -377,4 +377,79 @@ theorem b2Run_inv (P : B2Par) (hP : B2ParOK P) : ∀ (evs : List B2Event) (s : B
   | [], _, h => h
   | e :: evs, s, h => b2Run_inv P hP evs _ (b2Step_inv P hP s e h)
 
+
+/-! ## Block1 direction -/
+
+theorem srcvDecide_szx (lg1 : Srcv) (m chunk : Nat) (s' : Srcv) (h : (srcvDecide lg1 m chunk).1 = some s') :
+    s'.szx = lg1.szx := by
+  unfold srcvDecide at h
+  dsimp only at h
+  by_cases hm : m = 1
+  · rw [if_pos hm] at h
+    split at h
+    · cases h; rfl
+    · cases h
+  · rw [if_neg hm] at h
+    split at h
+    · cases h; rfl
+    · cases h
+
+theorem srcvCore_szx (cap : Nat) (junk : UInt8) (lg : Srcv) (n szxU m : Nat) (data : Bytes) (offset : Nat) (s' : Srcv)
+    (h : (srcvCore cap junk lg n szxU m data offset).1 = some s') : s'.szx = lg.szx := by
+  unfold srcvCore at h
+  dsimp only at h
+  cases hl : recvLoop cap ((data.length + 2 ^ (szxU + 4) - 1) / 2 ^ (szxU + 4)) lg.recv n false with
+  | none => rw [hl] at h; cases h
+  | some res =>
+    obtain ⟨rec', upd⟩ := res
+    rw [hl] at h
+    dsimp only at h
+    cases upd with
+    | false =>
+      simp only [Bool.false_eq_true, if_false] at h
+      exact srcvDecide_szx { lg with recv := rec' } _ _ s' h
+    | true =>
+      simp only [if_true] at h
+      cases hb : buildBody junk lg.body data offset
+          (if lg.totalLen < offset + data.length then offset + data.length else lg.totalLen) with
+      | none => rw [hb] at h; cases h; rfl
+      | some b =>
+        rw [hb] at h
+        simp only at h
+        exact srcvDecide_szx { lg with recv := rec', totalLen := _, body := some b } _ _ s' h
+
+/-- the lg_srcv a request leaves behind tracks the body in the size fixed when it was allocated -/
+theorem srcvStep_szx (cap : Nat) (junk : UInt8) (maxBlk : Nat) (st : Option Srcv) (num m szx : Nat) (payload : Bytes)
+    (size1 : Option Nat) (s' : Srcv) (h : (srcvStep cap junk maxBlk st num m szx payload size1).1 = some s') :
+    (∃ s, st = some s ∧ s'.szx = s.szx) ∨
+    (st = none ∧ s'.szx = (if num = 0 ∧ maxBlk ≠ 0 ∧ maxBlk < szx then maxBlk else szx)) := by
+  have hloc : (∃ s, st = some s ∧ (srcvLocate maxBlk st num szx size1).szx = s.szx) ∨
+      (st = none ∧ (srcvLocate maxBlk st num szx size1).szx = (if num = 0 ∧ maxBlk ≠ 0 ∧ maxBlk < szx then maxBlk else szx)) := by
+    unfold srcvLocate
+    cases st with
+    | some s => exact Or.inl ⟨s, rfl, rfl⟩
+    | none => exact Or.inr ⟨rfl, rfl⟩
+  unfold srcvStep at h
+  dsimp only at h
+  by_cases h1 : num = 0 ∧ m = 0
+  · rw [if_pos h1] at h
+    cases st with
+    | some s => simp only at h; cases h; exact Or.inl ⟨s', rfl, rfl⟩
+    | none => cases h
+  · rw [if_neg h1] at h
+    by_cases h2 : ¬ (payload.length > 2 ^ (szx + 4)) ∧ m = 1 ∧ payload.length ≠ 2 ^ (szx + 4)
+    · rw [if_pos h2] at h
+      cases st with
+      | some s => simp only at h; cases h; exact Or.inl ⟨s', rfl, rfl⟩
+      | none => cases h
+    · rw [if_neg h2] at h
+      unfold srcvConv at h
+      have hk : s'.szx = (srcvLocate maxBlk st num szx size1).szx := by
+        split at h
+        · exact srcvCore_szx _ _ _ _ _ _ _ _ s' h
+        · exact srcvCore_szx _ _ _ _ _ _ _ _ s' h
+      rcases hloc with ⟨s, e1, e2⟩ | ⟨e1, e2⟩
+      · exact Or.inl ⟨s, e1, by rw [hk, e2]⟩
+      · exact Or.inr ⟨e1, by rw [hk, e2]⟩
+
 end Coap.Block
